@@ -158,12 +158,17 @@ def _run(case):
         ok, x3 = lib(fails, "sample_other_key", lambda: np.asarray(p.sample(_key(case, case["seed2"]), n)))
         if ok and np.array_equal(x, x3):
             fails.append(Failure("sample:key_ignored", "different keys returned identical arrays"))
-    # independent continuous draws never coincide (a handful of float64 collisions are possible for D = 1 and n > 1e6)
+    # independent continuous draws do not coincide - except through float64 quantisation: x = mu + L z is rounded to the spacing
+    # of |mu| + a few sd, so with a mean far from the origin and many draws a few exact ties are expected (birthday bound).
+    # Allowed: 3 + 10 x the expected number of ties; a repeated block of draws exceeds that by orders of magnitude.
     if n >= 2:
         for r in range(R):
+            sdv = np.sqrt(np.diag(Sig[r]))
+            p_tie = float(np.prod(np.minimum(1.0, np.spacing(np.abs(mu[r]) + 4 * sdv) / (2 * np.sqrt(np.pi) * sdv))))
+            allowed = 3 + 10 * 0.5 * n * n * p_tie * float(np.sqrt(oracle.cond(Sig[r][None])[0]))
             dup = n - np.unique(x[:, r, :], axis=0).shape[0]
-            if dup > (3 if D == 1 and n > 10**5 else 0):
-                fails.append(Failure("sample:duplicate_draws", f"component {r}: {dup} of {n} draws are exact copies of other draws"))
+            if dup > (allowed if n > 10**4 else 0):
+                fails.append(Failure("sample:duplicate_draws", f"component {r}: {dup} of {n} draws are exact copies of other draws (expected ties from rounding: {allowed:.1f} at most)"))
                 break
     if case["stat"]:
         _statistical(fails, x, mu, Sig, "statistical")
